@@ -61,6 +61,17 @@ theorem safe_createTopic (s : St) (ph : Nat) (n : String) (kd : Bool) : Safe s (
       · simp only
         split <;> safe_close
 
+theorem safe_findTopicOp (s : St) (ph : Nat) (n : String) (kd d : Bool) : Safe s (findTopicOp s ph n kd d) := by
+  unfold findTopicOp
+  split
+  · safe_close
+  · split
+    · safe_close
+    · split
+      · safe_close
+      · simp only
+        split <;> safe_close
+
 theorem safe_createCft (s : St) (r : TopicRef) (n : String) (v : Bool) : Safe s (createCft s r n v) := by
   unfold createCft
   split
@@ -115,6 +126,7 @@ theorem safe_step (s : St) (op : Op) (ht : isTreeOp op = true) : Safe s (step s 
   | createSub ph a => exact safe_createSub s ph a
   | deleteSub via r => exact safe_deleteSub s via r
   | createTopic ph n k => exact safe_createTopic s ph n k
+  | findTopic ph n k d => exact safe_findTopicOp s ph n k d
   | deleteTopic via r => exact safe_deleteTopic s via r
   | createCft r n v => exact safe_createCft s r n v
   | deleteCft ph n => exact safe_deleteCft s ph n
